@@ -144,12 +144,14 @@ int runCodecCampaign(int tier, unsigned worker, unsigned workers, uint64_t seed,
         return true;
     };
     if (tier) {
-        // exhaustive: all 2^31 representable integers, the 2^33 values just outside, all 2^32 float patterns
+        // exhaustive: all 2^31 representable integers, the 2^25 values just outside each limit (every rejection
+        // is a C++ exception, which bounds how many are affordable), all 2^32 float patterns
         for (long v = IMIN + long(worker); v <= IMAX; v += long(workers)) if (!doInt(v)) return 2;
-        for (long v = IMAX + 1 + long(worker); v <= (1L << 32); v += long(workers)) if (!doInt(v) || !doInt(-v - 1)) return 2;
+        for (long v = IMAX + 1 + long(worker); v <= IMAX + (1L << 25); v += long(workers)) if (!doInt(v) || !doInt(-v - 1)) return 2;
         for (uint64_t b = worker; b <= 0xffffffffULL; b += workers) if (!doFloat(uint32_t(b))) return 2;
         L.add("exhaustive");
-    } else {
+    }
+    {
         // boundary-stratified sample + random
         static const long edges[] = {0, 1, -1, 2, -2, 42, 43, -43, 255, 256, 65535, 65536, IMAX, IMAX - 1, IMIN, IMIN + 1, IMAX + 1, IMIN - 1,
                                      (1L << 31) - 1, -(1L << 31), 1L << 31, (1L << 32), -(1L << 32), (1L << 40), -(1L << 40), 0x7fffffffffffffffL, (long) 0x8000000000000000UL};
